@@ -79,7 +79,8 @@ OFFSETS = [(0.0, 0.0), (30.0, -40.0), (250.0, 150.0)]
 ANGLES = [0.0, 33.0, 90.0, 120.0, -45.0]
 NPIX = [1.0, 3.0, 10.0, 50.0]
 # (10, 10): a square has an orientation, a round ellipse has none -- equal sizes are a value like any other
-PAIRS = [(1.0, 3.0), (3.0, 1.0), (3.0, 10.0), (10.0, 3.0), (10.0, 50.0), (50.0, 10.0), (10.0, 10.0)]
+PAIRS = [(1.0, 3.0), (3.0, 1.0), (3.0, 10.0), (10.0, 3.0), (10.0, 50.0), (50.0, 10.0), (10.0, 10.0),
+         (50.0, 3.0), (1.0, 50.0)]      # needle-like shapes (axis ratios 17 and 50), either axis the long one
 ANN_PAIRS = [((1.0, 3.0), (3.0, 10.0)), ((3.0, 1.0), (10.0, 3.0)), ((3.0, 10.0), (10.0, 50.0)), ((10.0, 10.0), (50.0, 30.0)),
              ((3.0, 3.0), (10.0, 10.0))]
 CIRC_ANN = [(1.0, 3.0), (3.0, 10.0), (10.0, 50.0), (1.0, 50.0)]
